@@ -36,9 +36,11 @@ where
             window_len,
             alpha: T::from(2.0).expect("can convert")
                 / (T::from(window_len).expect("can convert") + T::one()),
-            vals: VecDeque::with_capacity(window_len),
-            out: VecDeque::with_capacity(window_len),
-            smooth: vec![T::zero(); window_len],
+            // the cycle is the second difference of three smoothed values of four prices each:
+            // six prices are needed, whatever the window length
+            vals: VecDeque::with_capacity(window_len.max(6)),
+            out: VecDeque::with_capacity(window_len.max(6)),
+            smooth: vec![T::zero(); window_len.max(6)],
         }
     }
 }
@@ -54,13 +56,14 @@ where
         let Some(val) = self.view.last() else { return };
         debug_assert!(val.is_finite(), "value must be finite");
 
-        if self.vals.len() >= self.window_len {
+        let buf_len = self.smooth.len();
+        if self.vals.len() >= buf_len {
             self.vals.pop_front();
             self.out.pop_front();
         }
         self.vals.push_back(val);
 
-        if self.vals.len() < self.window_len {
+        if self.vals.len() < buf_len {
             self.out.push_back(T::zero());
             return;
         }
